@@ -1494,9 +1494,67 @@ impl<'a> Gen<'a> {
         for mut b in bodies {
             all.append(&mut b);
         }
+        let tracing = self.cfg.tron;
+        // a code-less landing pad at the very end of the program that is a branch target: jumping
+        // there ends the program (it falls off the end)
+        if !tracing && self.rng.pct(12) && !all.is_empty() {
+            let pad = self.label();
+            let n_main_end = all.len();
+            let mut used = false;
+            for d in all.iter_mut().take(n_main_end) {
+                let last = d.stmts.len().saturating_sub(1);
+                for (j, st) in d.stmts.iter_mut().enumerate() {
+                    // an END that is the last statement of its line, outside IF branches
+                    if j == last && matches!(st, Stmt::End) && self.rng.pct(50) {
+                        *st = Stmt::Goto(Target::L(pad));
+                        used = true;
+                    }
+                }
+            }
+            if !used || self.rng.pct(40) {
+                let at = self.rng.usize(all.len() + 1);
+                let cond = Expr::bin(BinOp::Eq, Expr::var("N%"), Expr::Int(*self.rng.pick(&[0i16, 1, 2])));
+                all.insert(
+                    at,
+                    Draft {
+                        label: None,
+                        stmts: vec![Stmt::If {
+                            cond,
+                            goto_form: self.rng.pct(30),
+                            then: Branch::Line(Target::L(pad)),
+                            els: None,
+                        }],
+                    },
+                );
+            }
+            // the pad follows the last line; sometimes an END sits right in front of it
+            if self.rng.pct(60) && !matches!(all.last().and_then(|d| d.stmts.last()), Some(Stmt::End) | Some(Stmt::Return)) {
+                all.push(Draft {
+                    label: None,
+                    stmts: vec![Stmt::End],
+                });
+            }
+            let pad_stmt = if self.rng.pct(70) {
+                Stmt::Rem("PAD".into(), false)
+            } else {
+                Stmt::Data(vec![Expr::Int(9)])
+            };
+            if matches!(pad_stmt, Stmt::Data(_)) && !self.data_types.contains(&Ty::Int) {
+                self.data_types.push(Ty::Int);
+            }
+            all.push(Draft {
+                label: Some(pad),
+                stmts: vec![pad_stmt],
+            });
+            if self.rng.pct(30) {
+                all.push(Draft {
+                    label: None,
+                    stmts: vec![Stmt::Rem(String::new(), false)],
+                });
+            }
+        }
         // DATA and REM lines go anywhere between lines, unless tracing would make
         // code-less lines observable-by-omission
-        let tracing = self.cfg.tron;
         for d in datas {
             let at = if tracing {
                 all.len()
